@@ -48,26 +48,27 @@ Definition Quiet (s : selected) : Prop :=
              /\ sel_hide s = false /\ sel_silenced s = [].
 
 (* -------------------------------------------------------------- msg_loop *)
-Definition op_ok (op : N -> mbox -> option (mbox * msg * bool)) : Prop :=
-  forall u b, BoxInv b -> known b u ->
+(* [v] is the view whose _flags_key_map supplies the cached message of a uid *)
+Definition op_ok (v : view) (op : N -> mbox -> option (mbox * msg * bool)) : Prop :=
+  forall u b, BoxInv b -> known b u -> aget u (v_fkeys v) <> None ->
     exists b' m ex, op u b = Some (b', m, ex) /\ BoxInv b' /\ BoxLe b b' /\ m_uid m = u.
 
-Lemma op_get_ok : op_ok op_get.
+Lemma op_get_ok v : op_ok v (op_get v).
 Proof.
-  intros u b I K. destruct (mb_get_known b u I K) as (m & ex & G & Mu).
+  intros u b I K Hk. destruct (mb_get_known b u (aget u (v_fkeys v)) I K (fun _ => Hk)) as (m & ex & G & Mu).
   exists b, m, ex. unfold op_get. rewrite G.
   split; [reflexivity|split; [exact I|split; [apply BoxLe_refl|exact Mu]]].
 Qed.
-Lemma op_update_ok o fl : op_ok (fun u b => mb_update u o fl b).
+Lemma op_update_ok v o fl : op_ok v (op_update v o fl).
 Proof.
-  intros u b I K. destruct (mb_get_known b u I K) as (m0 & ex0 & G & Mu).
-  destruct (mb_update u o fl b) as [[[b' m] ex]|] eqn:E.
-  - destruct (mb_update_inv _ _ _ _ _ _ _ I E) as (I' & Le & Mu' & _). exists b', m, ex. auto.
+  intros u b I K Hk. destruct (mb_get_known b u (aget u (v_fkeys v)) I K (fun _ => Hk)) as (m0 & ex0 & G & Mu).
+  unfold op_update. destruct (mb_update u (aget u (v_fkeys v)) o fl b) as [[[b' m] ex]|] eqn:E.
+  - destruct (mb_update_inv _ _ _ _ _ _ _ _ I E) as (I' & Le & Mu' & _). exists b', m, ex. auto.
   - unfold mb_update in E. rewrite G in E. destruct ex0; discriminate.
 Qed.
 
-Lemma msg_loop_ok op targets : op_ok op -> forall b acc,
-  BoxInv b -> (forall su, In su targets -> known b (snd su)) ->
+Lemma msg_loop_ok v op targets : op_ok v op -> forall b acc,
+  BoxInv b -> (forall su, In su targets -> known b (snd su) /\ aget (snd su) (v_fkeys v) <> None) ->
   exists b' msgs,
     fold_left (fun (st : option (mbox * list (N * msg * bool))) (su : N * N) =>
                  match st with
@@ -84,29 +85,33 @@ Proof.
   intros Hop. induction targets as [|[seq u] rest IH]; intros b acc I K; cbn [fold_left].
   - exists b, []. rewrite app_nil_r.
     split; [reflexivity|split; [exact I|split; [apply BoxLe_refl|reflexivity]]].
-  - destruct (Hop u b I (K (seq, u) (or_introl eq_refl))) as (b1 & m & ex & E & I1 & Le1 & Mu).
+  - destruct (K (seq, u) (or_introl eq_refl)) as [Ku Kk]. cbn [snd] in Ku, Kk.
+    destruct (Hop u b I Ku Kk) as (b1 & m & ex & E & I1 & Le1 & Mu).
     cbn [snd fst]. rewrite E.
     destruct (IH b1 (acc ++ [(seq, m, ex)]) I1) as (b' & msgs & F & I' & Le' & Mp).
-    { intros su Hsu. apply (le_known _ _ Le1), K. right; exact Hsu. }
+    { intros su Hsu. destruct (K su (or_intror Hsu)) as [A B]. split; [apply (le_known _ _ Le1), A|exact B]. }
     exists b', ((seq, m, ex) :: msgs). rewrite F, <- app_assoc. cbn [app].
     split; [reflexivity|split; [exact I'|split]].
     + apply (BoxLe_trans b b1 b'); auto.
     + cbn [map fst snd]. rewrite Mu, Mp. reflexivity.
 Qed.
 
-Lemma msg_loop_spec op targets b : op_ok op -> BoxInv b ->
-  (forall su, In su targets -> known b (snd su)) ->
+Lemma msg_loop_spec v op targets b : op_ok v op -> BoxInv b ->
+  (forall su, In su targets -> known b (snd su) /\ aget (snd su) (v_fkeys v) <> None) ->
   exists b' msgs, msg_loop op targets b = Some (b', msgs) /\ BoxInv b' /\ BoxLe b b'
     /\ map (fun x : N * msg * bool => (fst (fst x), m_uid (snd (fst x)))) msgs = targets.
 Proof.
-  intros Hop I K. destruct (msg_loop_ok op targets Hop b [] I K) as (b' & msgs & F & R).
+  intros Hop I K. destruct (msg_loop_ok v op targets Hop b [] I K) as (b' & msgs & F & R).
   exists b', msgs. split; auto.
 Qed.
 
 (* ------------------------------------------------------------------ fork *)
-Lemma cached_known b u : BoxInv b -> known b u -> cached_of b u <> None.
+Lemma cached_known b s u : BoxInv b -> SelInv b s -> In u (v_sorted (sel_view s)) ->
+  cached_of b (sel_view s) u <> None.
 Proof.
-  intros I K. unfold cached_of, mb_cached. destruct (known_cases b u I K) as [A|D].
+  intros I S Hu. pose proof (si_known _ _ S u Hu) as K. unfold cached_of.
+  destruct (mb_md b); [apply (si_fkeys _ _ S u Hu)|].
+  unfold mb_cached. destruct (known_cases b u I K) as [A|D].
   - apply mb_alive_In in A. destruct (mb_alive u b); [discriminate|congruence].
   - destruct (mb_alive u b); [discriminate|]. apply find_msg_In in D.
     destruct (find_msg u (mb_dead b)); [discriminate|congruence].
@@ -139,8 +144,8 @@ Section Fork.
   Hypothesis Hnew : forall u v, In u V -> ~ In u start -> In v start -> (v < u)%N.
 
   Lemma fork_ok :
-    let s' := fst (fork (cached_of b) with_uid s) in
-    let unt := snd (fork (cached_of b) with_uid s) in
+    let s' := fst (fork (cached_of b (sel_view s)) with_uid s) in
+    let unt := snd (fork (cached_of b (sel_view s)) with_uid s) in
     client_run_st (start, ndiff V start) unt = Some (V, [])
     /\ SelInv b s' /\ Quiet s' /\ sel_view s' = sel_view s /\ sel_box s' = sel_box s
     /\ sel_recent s' = sel_recent s /\ sel_readonly s' = sel_readonly s
@@ -163,8 +168,8 @@ Section Fork.
             apply aget_In_keys. unfold akeys. apply in_map_iff. exists (u, f). auto. }
         destruct (seqs_ok_pos _ _ u (si_seqs _ _ S) Hv) as (n & Hn & Nz & Hnth).
         fold V in Hn. rewrite Hn in Hr.
-        pose proof (cached_known b u IB (si_known _ _ S u Hv)) as Hc.
-        destruct (cached_of b u) as [f|]; [|congruence]. subst r.
+        pose proof (cached_known b s u IB S Hv) as Hc.
+        destruct (cached_of b (sel_view s) u) as [f|]; [|congruence]. subst r.
         split; [reflexivity|]. apply fetch_step. auto.
     - apply (SelInv_ext b s); auto.
     - exists (freeze s). cbn. auto 10.
@@ -177,7 +182,7 @@ Section Fork.
         * destruct (_ =? _)%nat; [destruct K|]. destruct K as [K|[]]. discriminate.
         * apply in_map_iff in K as [u [K _]].
           destruct (aget u (fz_seqs (freeze s))); [|discriminate].
-          destruct (cached_of b u); discriminate.
+          destruct (cached_of b (sel_view s) u); discriminate.
   Qed.
 End Fork.
 
@@ -288,9 +293,11 @@ Qed.
 
 (* targets of a sequence set are messages of the view, labelled with their position *)
 Lemma targets_known bs s b sset by_uid : aget (sel_box s) bs = Some b -> SelInv b s ->
-  forall su, In su (view_select sset by_uid (sel_view s)) -> known b (snd su).
+  forall su, In su (view_select sset by_uid (sel_view s)) ->
+             known b (snd su) /\ aget (snd su) (v_fkeys (sel_view s)) <> None.
 Proof.
-  intros _ S [n u] H. cbn [snd]. apply (si_known _ _ S). eapply view_select_In, H.
+  intros _ S [n u] H. cbn [snd]. apply view_select_In in H.
+  split; [apply (si_known _ _ S), H|apply (si_fkeys _ _ S), H].
 Qed.
 
 Lemma msgs_target (msgs : list (N * msg * bool)) targets seq m ex :
@@ -325,8 +332,8 @@ Proof.
   set (s1 := if silent then silence (keyed_targets (sel_view s) targets) (fs_of fl) op s0 else s0).
   assert (SC : SameCore s s1).
   { unfold s1, s0. destruct silent, by_uid; auto using SameCore_refl, SameCore_hide, SameCore_silence. }
-  destruct (msg_loop_spec (fun u b => mb_update u op (perm_intersect (fs_of fl)) b) targets b
-              (op_update_ok _ _) (G _ _ Hb) (targets_known bs s b sset by_uid Hb S))
+  destruct (msg_loop_spec (sel_view s) (op_update (sel_view s) op (perm_intersect (fs_of fl))) targets b
+              (op_update_ok _ _ _) (G _ _ Hb) (targets_known bs s b sset by_uid Hb S))
     as (b' & msgs & L & I' & Le & Mp).
   rewrite L.
   assert (Ev : Evolves bs (aset (sel_box s) b' bs)) by (apply (evolves_set bs _ b b'); auto).
@@ -361,10 +368,10 @@ Proof.
   assert (SC : SameCore s s0).
   { unfold s0. destruct by_uid; auto using SameCore_refl, SameCore_hide. }
   set (opf := if negb (sel_readonly s0) && set_seen
-              then (fun u b => mb_update u FAdd [F_SEEN] b) else op_get).
-  assert (Hop : op_ok opf).
+              then op_update (sel_view s) FAdd [F_SEEN] else op_get (sel_view s)).
+  assert (Hop : op_ok (sel_view s) opf).
   { unfold opf. destruct (negb (sel_readonly s0) && set_seen); [apply op_update_ok|apply op_get_ok]. }
-  destruct (msg_loop_spec opf targets b Hop (G _ _ Hb) (targets_known bs s b sset by_uid Hb S))
+  destruct (msg_loop_spec (sel_view s) opf targets b Hop (G _ _ Hb) (targets_known bs s b sset by_uid Hb S))
     as (b' & msgs & L & I' & Le & Mp).
   fold opf. rewrite L.
   assert (Ev : Evolves bs (aset (sel_box s) b' bs)) by (apply (evolves_set bs _ b b'); auto).
@@ -396,7 +403,7 @@ Proof.
   assert (SC : SameCore s s0).
   { unfold s0. destruct by_uid; auto using SameCore_refl, SameCore_hide. }
   destruct (match sskey with Some k => k | None => (all_set, false) end) as [pre pre_uid] eqn:Ek.
-  destruct (msg_loop_spec op_get (view_select pre pre_uid (sel_view s)) b op_get_ok (G _ _ Hb)
+  destruct (msg_loop_spec (sel_view s) (op_get (sel_view s)) (view_select pre pre_uid (sel_view s)) b (op_get_ok _) (G _ _ Hb)
               (targets_known bs s b pre pre_uid Hb S)) as (b' & msgs & L & I' & Le & Mp).
   rewrite L.
   match goal with |- context [MkOut _ _ true [Search by_uid ?i] _ _ _] => set (ids := i) end.
@@ -426,7 +433,7 @@ Lemma find_deleted_spec bs s b us :
   exists uids, find_deleted b s us = Some uids /\ NoDup uids /\ forall u, In u uids -> known b u.
 Proof.
   intros Hb I S. unfold find_deleted.
-  destruct (msg_loop_spec op_get (view_select us true (sel_view s)) b op_get_ok I
+  destruct (msg_loop_spec (sel_view s) (op_get (sel_view s)) (view_select us true (sel_view s)) b (op_get_ok _) I
               (targets_known bs s b us true Hb S)) as (b' & msgs & L & _ & _ & Mp).
   rewrite L. eexists. split; [reflexivity|].
   assert (Mu : map (fun x : N * msg * bool => m_uid (snd (fst x))) msgs
@@ -965,7 +972,7 @@ Proof.
                     (proj1 (br_ev _ _ _ _ B) _ _ Hb') S' Hprev Q2 Hq (si_sorted _ _ S0)
                     (rd_hide _ _ _ _ R) (rd_new _ _ _ _ R)) as FK.
       cbn zeta in FK.
-      destruct (fork (cached_of b') (o_with_uid o) s') as [s'' unt] eqn:EF. cbn [fst snd] in FK.
+      destruct (fork (cached_of b' (sel_view s')) (o_with_uid o) s') as [s'' unt] eqn:EF. cbn [fst snd] in FK.
       destruct FK as (Run & S'' & Qt & Vw & Bx & Rc & Ro & Nx).
       set (se' := MkSess (Some s'') match c, o_tagged o with CIdle, Cont => true | _, _ => false end).
       assert (Hme : SessOK (o_boxes o) se').
@@ -1072,7 +1079,7 @@ Proof.
   pose proof (fork_ok b (sync b s) false (v_sorted (sel_view s)) fz (G _ _ Hb) S' Hprev Q2 Hq
                 (si_sorted _ _ S0) (rd_hide _ _ _ _ R) (rd_new _ _ _ _ R)) as FK.
   cbn zeta in FK.
-  destruct (fork (cached_of b) false (sync b s)) as [s'' unt] eqn:EF. cbn [fst snd] in FK.
+  destruct (fork (cached_of b (sel_view (sync b s))) false (sync b s)) as [s'' unt] eqn:EF. cbn [fst snd] in FK.
   destruct FK as (Run & S'' & Qt & Vw & Bx & Rc & Ro & Nx).
   set (se' := MkSess (Some s'') true).
   assert (Hme : SessOK (sy_boxes sy) se').
@@ -1098,7 +1105,7 @@ Proof.
       * match type of Hr with In _ (if ?x then _ else _) => destruct x end; [destruct Hr|].
         destruct Hr as [<-|[]]. reflexivity.
       * apply in_map_iff in Hr as [u [Hr _]].
-        destruct (aget u _); [destruct (cached_of b u)|]; subst; reflexivity.
+        destruct (aget u _); [destruct (cached_of b _ u)|]; subst; reflexivity.
 Qed.
 
 (* ------------------------------------------------------------- every label *)
@@ -1136,7 +1143,7 @@ Qed.
 
 Theorem step_ok sy l : Inv sy -> StepSpec sy l (fst (step sy l)) (snd (step sy l)).
 Proof.
-  intros HI. pose proof HI as [G HS]. destruct l as [s c|s|s|name fl recent content|name ro]; cbn [step].
+  intros HI. pose proof HI as [G HS]. destruct l as [s c|s|s|name fl recent content|name ro|name]; cbn [step].
   - (* Cmd *)
     destruct (ss_idle (sess_of sy s)) eqn:Idle.
     + pose proof (idle_wake_ok sy s HI) as (I1 & Ev1 & Fr1 & _ & _ & Cl1 & _).
@@ -1187,7 +1194,18 @@ Proof.
   - (* CreateBox *)
     destruct (aget name (sy_boxes sy)) as [b|] eqn:Hb; cbn [fst snd].
     + split; [exact HI|]. split; [apply evolves_refl, G|]. split; [auto|intros s0 Hs0; discriminate].
-    + assert (Ev : Evolves (sy_boxes sy) (sy_boxes sy ++ [(name, mb_new ro)])).
+    + assert (Ev : Evolves (sy_boxes sy) (sy_boxes sy ++ [(name, mb_new false ro)])).
+      { split.
+        - intros n b. rewrite aget_app_new. destruct (aget n (sy_boxes sy)) eqn:E.
+          + intros K; inversion K; subst. eapply G; eauto.
+          + destruct (n =? name)%N; [|discriminate]. intros K; inversion K; subst. apply BoxInv_new.
+        - intros n b E. exists b. rewrite aget_app_new, E. split; auto. apply BoxLe_refl. }
+      split; [|split; [exact Ev|split; [auto|intros s0 Hs0; discriminate]]].
+      split; [apply Ev|]. cbn [sy_sess sy_boxes]. intros i se Hi. eapply sessok_evolves; eauto.
+  - (* CreateMaildir *)
+    destruct (aget name (sy_boxes sy)) as [b|] eqn:Hb; cbn [fst snd].
+    + split; [exact HI|]. split; [apply evolves_refl, G|]. split; [auto|intros s0 Hs0; discriminate].
+    + assert (Ev : Evolves (sy_boxes sy) (sy_boxes sy ++ [(name, mb_new true false)])).
       { split.
         - intros n b. rewrite aget_app_new. destruct (aget n (sy_boxes sy)) eqn:E.
           + intros K; inversion K; subst. eapply G; eauto.
@@ -1272,7 +1290,8 @@ Theorem noop_converges sy me s c : Inv sy -> sel_of sy me = Some s -> ss_idle (s
     /\ sy_boxes sy' = sy_boxes sy
     /\ v_sorted (sel_view s') = mb_uids b'
     /\ v_pending (sel_view s') = []
-    /\ (forall u m, mb_alive u b' = Some m -> aget u (v_fkeys (sel_view s')) = Some (m_flags m)).
+    /\ (forall u m, mb_alive u b' = Some m -> aget u (v_fkeys (sel_view s')) = Some (m_flags m))
+    /\ sel_box s' = sel_box s.
 Proof.
   intros HI Hs Idle Hc. pose proof HI as [G HS]. cbn zeta. cbn [step]. rewrite Idle.
   unfold do_command. unfold sel_of in Hs. rewrite Hs.
@@ -1286,7 +1305,7 @@ Proof.
   rewrite Hb. cbn [o_sel o_fork o_boxes o_with_uid o_grants o_untagged o_tagged fold_left].
   destruct (sync_facts b s (G _ _ Hb) S0) as (F1 & F2 & F3 & F4 & F5 & F6 & F7 & F8 & _).
   unfold fork_in. rewrite F8, Hb.
-  destruct (fork (cached_of b) false (sync b s)) as [s'' unt] eqn:EF.
+  destruct (fork (cached_of b (sel_view (sync b s))) false (sync b s)) as [s'' unt] eqn:EF.
   assert (Vw : sel_view s'' = sel_view (sync b s) /\ sel_box s'' = sel_box s).
   { unfold fork in EF. inversion EF; subst. cbn. split; [reflexivity|exact F8]. }
   destruct Vw as [Vw Bx].
@@ -1294,7 +1313,7 @@ Proof.
   rewrite aget_aset_eq. cbn [ss_sel]. split; [reflexivity|]. split; [rewrite Bx; exact Hb|].
   split; [reflexivity|]. rewrite Vw.
   assert (Hh : sel_hide s = false) by exact Q5. destruct (F4 Hh) as [Conv Pend].
-  split; [|split; [exact Pend|]].
+  split; [|split; [exact Pend|split; [|exact Bx]]].
   - apply ssorted_ext; [apply F1|apply (bi_sorted _ (G _ _ Hb))|exact Conv].
   - intros u m A. apply F5; auto. apply Conv, mb_alive_In. congruence.
 Qed.
